@@ -32,7 +32,8 @@ def enc_behav(bh):
     term = bh.get("term", ["obey", 0])
     kt = bh.get("kid_term", ["obey", 0])
     return [opt(term[1] if term[0] == "obey" else None), str(bh.get("kill_lat", 0)), str(bh.get("kids", 0)),
-            opt(kt[1] if kt[0] == "obey" else None), b(bh.get("exec_fail", False)), str(bh.get("spawn_ms", 0))]
+            opt(kt[1] if kt[0] == "obey" else None), b(bh.get("exec_fail", False)), str(bh.get("spawn_ms", 0)),
+            b(bh.get("eperm", False)), b(bh.get("kid_eperm", False))]
 
 
 def parse_raw(raw):
